@@ -23,7 +23,10 @@ fn main() {
         cfgs.push((QfCfg::full(2, 3, false), u64::MAX));
         cfgs.push((QfCfg::full(1, 4, true), u64::MAX));
         cfgs.push((QfCfg::full(1, 5, false), u64::MAX));
-        cfgs.push((QfCfg::full(3, 2, false), 40_000_000));
+        // 8 and 16 slots over sub-universes (the full (3,2) closure has 15 M states and needs 47 min / 19 GB)
+        cfgs.push((QfCfg::partial(3, 2, &[0, 1, 3], &[]), u64::MAX));
+        cfgs.push((QfCfg::partial(4, 1, &[0], &[1, 3, 0x1f, 0x11]), u64::MAX));
+        cfgs.push((QfCfg::partial(4, 2, &[2], &[0, 0x3f]), u64::MAX));
         cfgs.push((QfCfg::wide(3, 61), u64::MAX));
     }
     let mut all_closed = true;
